@@ -41,7 +41,8 @@ CONSTANTS MaxDepth, MaxCopies, MaxBefore
 Frames == {"func", "class", "if", "try", "with", "for", "while", "else", "except", "finally", "case"}
 Loops  == {"for", "while"}
 Kinds  == {"stmts", "method", "module", "whole", "fnbody", "split"}
-Siblings == {"none", "shadow"}
+\* shadowHere: the bindings of `shadow` stand in a function of their own at the END of the same file (another scope)
+Siblings == {"none", "shadow", "shadowHere"}
 
 SeqSet(s) == {s[i] : i \in 1..Len(s)}
 Ctxs == UNION {[1..n -> Frames] : n \in 0..MaxDepth}
